@@ -11,6 +11,9 @@
 #include <cstddef>
 #include <new>
 #include <cstring>
+#ifdef WITH_FRAME
+#include "verif_frame.hpp"
+#endif
 
 using M = pgm::MappedPGMIndex<KEY, EPS, EPSREC>;
 using MBase = pgm::PGMIndex<KEY, EPS, EPSREC>;
@@ -30,11 +33,20 @@ struct pgm_verif_access {
 // out: [0] lower_bound pos [1] upper_bound pos [2] count [3] contains [4] size [5] begin()==d [6] end()-begin()
 extern "C" __attribute__((noinline)) int u_mapped(const KEY *d, size_t n, const KEY *q, size_t *out) {
     try {
+#if defined(WITH_FRAME) && !defined(VERIF_MODEL)
+        VerifArenaScope arena;                      // real build: the object and its buffers live in the arena (read-only during the queries)
+        unsigned char *storage = static_cast<unsigned char *>(verif_arena_alloc(sizeof(M)));
+        M *m = pgm_verif_access::make(storage, d, n);
+        arena.stop();
+        struct Unprotect { ~Unprotect() { verif_frame_end(); } } unprotect;      // before destroy() on every path
+#else
         alignas(M) unsigned char storage[sizeof(M)];
         M *m = pgm_verif_access::make(storage, d, n);
+#endif
 #ifdef WITH_FRAME
         unsigned char obj0[sizeof(M)], obj1[sizeof(M)];
         std::memcpy(obj0, static_cast<const void *>(m), sizeof(M));
+        verif_frame_begin(storage, d, nullptr, nullptr);      // writes, not only changes: the object, the mapped data, every heap buffer
 #endif
         out[0] = m->lower_bound(*q) - m->begin();
         out[1] = m->upper_bound(*q) - m->begin();
@@ -44,6 +56,7 @@ extern "C" __attribute__((noinline)) int u_mapped(const KEY *d, size_t n, const 
         out[5] = m->begin() == d;
         out[6] = m->end() - m->begin();
 #ifdef WITH_FRAME
+        verif_frame_end();
         {   // C16 frame condition: every byte of the container object is unchanged by the queries, which are deterministic
             std::memcpy(obj1, static_cast<const void *>(m), sizeof(M));
             bool same = true;
